@@ -154,7 +154,7 @@ PROPS = {
         "require": [('checked_from_num<f32>', 'none'), ('from_num<f32>', 'panic'), ('overflowing_from_num<f64>', 'flag-set'), ('to_num<f32>', 'float'), ('From_fixed<f64>', 'float')],
         "title": "float conversions correctly rounded (ties to even) in both directions",
         "stages": [{"driver": "prim"}, {"driver": "primx", "tiers": ["thorough"]}],
-        "rule": PRIM_RULE + "a transition is one float->fixed or fixed->float conversion call in one of its forms, compared with exact IEEE-754 decode / round-to-nearest-even encode done by integer manipulation",
+        "rule": PRIM_RULE + "thorough: all 2^32 f32 bit patterns into 13 layouts; a transition is one float->fixed or fixed->float conversion call in one of its forms, compared with exact IEEE-754 decode / round-to-nearest-even encode done by integer manipulation",
     },
     "C01": {
         "require": [('checked_mul', 'value'), ('checked_div', 'value'), ('mul@ref_ref', 'value'), ('div@assign_ref', 'value')],
